@@ -107,7 +107,16 @@ func (w *c04World) probeAudit() {
 	vh.Settle()
 	scripted := int64(0)
 	for _, b := range w.bes {
+		lastHangUp := int64(-1 << 62)
 		for _, p := range b.ProbeLog() {
+			if p.Status == 0 {
+				// a probe that was hung up on arrives a second time when net/http had sent it over a kept-alive
+				// connection (it retries once on a fresh one): both arrivals are one probe of Helios
+				if p.At-lastHangUp < int64(2*time.Second) {
+					continue
+				}
+				lastHangUp = p.At
+			}
 			if p.Status != 200 {
 				scripted++
 			}
@@ -372,9 +381,28 @@ func c04Run(e *vh.Env, c c04Case, seq string, bes []*vh.Backend, o *vh.Out) {
 			w.S.SetProbe(200, 0)
 			w.toNextTick(200 * time.Millisecond)
 		case 'q':
-			w.S.SetProbe(500, 0)
+			// the health endpoint fails at the next tick: with a 500, or (every other position) by hanging up without
+			// an answer. A backend that is eligible at that tick is probed - otherwise its failing endpoint could
+			// never eject it
+			if (i+len(seq))%2 == 1 {
+				w.S.SetProbe(0, 0)
+			} else {
+				w.S.SetProbe(500, 0)
+			}
+			el := time.Since(w.t0)
+			tick := w.t0.Add((el/c04Interval + 1) * c04Interval)
+			eligibleAtTick := w.m.status(tick) == 1 && w.m.status(time.Now()) == 1
+			before := len(w.S.ProbeLog())
 			w.toNextTick(200 * time.Millisecond)
 			w.S.SetProbe(200, 0)
+			if eligibleAtTick {
+				if len(w.S.ProbeLog()) == before {
+					o.Viol(w.sig("eligible-backend-not-probed"), fmt.Sprintf("%s: %s was eligible at the probe tick and its health endpoint was failing, but no probe reached it - a failed probe cannot eject it", w.ctx(), w.S.Name), nil)
+					ok = false
+				} else {
+					o.Obs("failing_probes_of_eligible_backend", 1)
+				}
+			}
 		case 'D':
 			// an operator tries to add a backend under the subject's name: refused, and nothing about the subject changes
 			if rec := adminDo(w.sys.admin(), "POST", "/v1/backends/add", "127.0.0.1:1", nil, fmt.Sprintf(`{"name":%q,"address":%q,"weight":1}`, w.S.Name, w.S.URL)); rec.Code < 400 {
